@@ -95,10 +95,9 @@ int32_t psPkcs3ParseDhParamBin(psPool_t *pool, const unsigned char *dhBin,
         /* Read desired length of private key.
            (Note: currently ignored by MatrixSSL). */
         pstm_int bitlen;
-        if (pstm_init_size(pool, &bitlen, 1) < 0)
-        {
-            goto L_ERR;
-        }
+
+        /* pstm_read_asn() allocates the integer itself. */
+        Memset(&bitlen, 0, sizeof(bitlen));
         if (pstm_read_asn(pool, &c, (uint16_t) (end - c), &bitlen) < 0)
         {
             pstm_clear(&bitlen);
